@@ -7,7 +7,7 @@ PROP = 'C20'
 THEOREM_FILE = 'Props/C20.v'
 NOTES = ['the float instance (PrimFloat) of the generic model is compared bit for bit with CPython; the theorems are about the real instance of the same Gallina term',
          'vertical supporting segments (x1 == x2) are the open known finding "vertical-segment" (the repository\'s own test pins the end-point answer); any failure on another segment is a violation',
-         'oracle: exact nearest point on the segment with rational arithmetic, distances compared to 1e-7 relative']
+         'oracle: exact nearest point on the segment with rational arithmetic, distances compared to 1e-8 of the coordinate magnitude; a quarter of the inputs are shifted to projected-coordinate magnitudes (1e5 .. 7e6, two decimals) where one ulp exceeds any fixed small tolerance']
 IMPORTS = 'From Coq Require Import List PrimFloat Bool.\nImport ListNotations.\nFrom TL Require Import Model.Num Model.Geom.'
 FEQ = 'Definition feq (a b : float) : bool := PrimFloat.eqb a b || (negb (PrimFloat.eqb a a) && negb (PrimFloat.eqb b b)).\n'
 
@@ -30,7 +30,7 @@ def check_proj(seg, x, y, d, px, py, what):
         return '%s returned a non-finite value (%r, %r, %r)' % (what, d, px, py)
     dmin, _ = nearest_exact(seg, x, y)
     scale = 1 + max(abs(v) for v in list(seg) + [x, y])
-    tol = 1e-7 * scale
+    tol = 1e-8 * scale
     if abs(d - math.hypot(x - px, y - py)) > tol:
         return '%s: returned distance %r is not the distance %r from the query to the returned point (%r, %r)' % (what, d, math.hypot(x - px, y - py), px, py)
     if abs(d - dmin) > tol:
@@ -64,6 +64,11 @@ def gen_segment(rng, n, tier):
             t = rng.choice([-0.5, 1.5]); qx = x1 + t * (x2 - x1); qy = y1 + t * (y2 - y1)
         else:
             qx = rng.uniform(min(x1, x2) - 50 * sc, max(x1, x2) + 50 * sc); qy = rng.uniform(min(y1, y2) - 50 * sc, max(y1, y2) + 50 * sc)
+        if rng.random() < 0.25:                 # projected-coordinate magnitudes (Lambert-93 like eastings / northings with two decimals)
+            ox = rng.choice([651000.5, 123456.78, 1000000.25]) + rng.randint(0, 99999) / 100.0
+            oy = rng.choice([6860000.1, 6543210.9, 250000.35]) + rng.randint(0, 99999) / 100.0
+            x1, x2, qx = x1 + ox, x2 + ox, qx + ox
+            y1, y2, qy = y1 + oy, y2 + oy, qy + oy
         out.append({'seg': [x1, y1, x2, y2], 'q': [qx, qy]})
     return out
 
